@@ -39,25 +39,28 @@ import (
 const wd = 5 * time.Second
 
 type faultIn struct {
-	Pos    string `json:"pos"` // idle midopen midmeta midcall outopen outmeta outcall handshake resume refuse
-	Slow   bool   `json:"slow,omitempty"`
-	HsFail int    `json:"hsfail,omitempty"`
-	Silent bool   `json:"silent,omitempty"`
-	Down   bool   `json:"down,omitempty"`   // midopen/outopen: open a downstream
-	Refuse int    `json:"refuse,omitempty"` // pos=refuse: ordinal of the stream whose resume is refused
-	Conflicts int `json:"conflicts,omitempty"` // pos=conflict: the broker answers the first n resume requests of every stream on the new incarnation with RESUME_REQUEST_CONFLICT and accepts the next
-	Late   bool   `json:"late,omitempty"`   // out*: the request is issued 25 ms after the loss, while reconnect() is already redialling (slow redial)
-	OpenAfter bool `json:"open_after,omitempty"` // after the recovery a downstream and an upstream are opened on the healthy connection
+	Pos       string `json:"pos"` // idle midopen midmeta midcall outopen outmeta outcall handshake resume refuse
+	Slow      bool   `json:"slow,omitempty"`
+	HsFail    int    `json:"hsfail,omitempty"`
+	Silent    bool   `json:"silent,omitempty"`
+	Down      bool   `json:"down,omitempty"`       // midopen/outopen: open a downstream
+	Refuse    int    `json:"refuse,omitempty"`     // pos=refuse: ordinal of the stream whose resume is refused
+	Conflicts int    `json:"conflicts,omitempty"`  // pos=conflict: the broker answers the first n resume requests of every stream on the new incarnation with RESUME_REQUEST_CONFLICT and accepts the next
+	Late      bool   `json:"late,omitempty"`       // out*: the request is issued 25 ms after the loss, while reconnect() is already redialling (slow redial)
+	OpenAfter bool   `json:"open_after,omitempty"` // after the recovery a downstream and an upstream are opened on the healthy connection
 }
 
 type caseIn struct {
-	Ups    int       `json:"ups"`
-	Downs  int       `json:"downs"`
+	Ups   int `json:"ups"`
+	Downs int `json:"downs"`
+	// SlowHooks: every stream's resumed handler blocks (a slow application hook) until the NEXT failure has been
+	// survived or refused: the stream's dispatcher is inside it while the next resumed / closed event is queued
+	SlowHooks bool `json:"slow_hooks,omitempty"`
 	// Backlog: before the first failure the broker pushes that many chunks into every downstream and the
 	// application reads none of them (the 1024-slot read queue is full and more keep arriving); every upstream
 	// has 30 chunks in flight whose acknowledgements arrive in one burst right before the link dies
-	Backlog int `json:"backlog,omitempty"`
-	Faults []faultIn `json:"faults"`
+	Backlog int       `json:"backlog,omitempty"`
+	Faults  []faultIn `json:"faults"`
 }
 
 func classify(err error) int {
@@ -93,32 +96,60 @@ type pending struct {
 }
 
 type runner struct {
-	cb      *connbroker.B
-	conn    *iscp.Conn
-	mu      sync.Mutex
-	disc    int
-	reconn  int
-	lastEv  time.Time
-	resumed []int
-	sclosed [][2]int
-	rets    map[int]int
-	streams []*strm
-	evs     []string
-	label   int
-	tokens  atomic.Int32
-	seq     uint32
-	direct  string
-	unscripted int
-	faults     []*faultRec
+	cb           *connbroker.B
+	conn         *iscp.Conn
+	mu           sync.Mutex
+	disc         int
+	reconn       int
+	lastEv       time.Time
+	resumed      []int
+	sclosed      [][2]int
+	rets         map[int]int
+	streams      []*strm
+	evs          []string
+	label        int
+	tokens       atomic.Int32
+	seq          uint32
+	direct       string
+	unscripted   int
+	faults       []*faultRec
 	closedBefore map[int]bool
 	excused      map[int]bool // resume refused by the broker, or resume exchange cut
 	accounted    int          // wire incarnations established inside the fault windows
 	backlog      int
+	downConflict bool // a downstream was closed after a RESUME_REQUEST_CONFLICT answer
+	slowHooks    bool
+	gates        []chan struct{} // gate k holds the resumed handlers that were called during fault k
+	curFault     int
 	drained      map[int]bool
 }
 
 func (r *runner) ev(s ...string) { r.evs = append(r.evs, s...) }
 func (r *runner) touch()         { r.lastEv = time.Now() }
+
+// gateNow (r.mu held) returns the gate the handlers of the current fault wait on, nil without slow hooks.
+func (r *runner) gateNow() chan struct{} {
+	if !r.slowHooks {
+		return nil
+	}
+	for len(r.gates) <= r.curFault {
+		r.gates = append(r.gates, make(chan struct{}))
+	}
+	return r.gates[r.curFault]
+}
+
+// releaseGate lets the handlers that were called during fault k return.
+func (r *runner) releaseGate(k int) {
+	r.mu.Lock()
+	if k >= 0 && k < len(r.gates) && r.gates[k] != nil {
+		select {
+		case <-r.gates[k]:
+		default:
+			close(r.gates[k])
+		}
+	}
+	r.mu.Unlock()
+}
 
 func (r *runner) newLabel() int { r.label++; return r.label - 1 }
 
@@ -130,7 +161,15 @@ func (r *runner) open(ctx context.Context, label int, down bool) error {
 				r.mu.Lock()
 				r.resumed = append(r.resumed, label)
 				r.touch()
+				g := r.gateNow()
 				r.mu.Unlock()
+				if g != nil {
+					// a slow application handler: the stream's dispatcher sits here across the NEXT outage
+					select {
+					case <-g:
+					case <-time.After(3 * time.Second):
+					}
+				}
 			})),
 			iscp.WithUpstreamClosedEventHandler(iscp.UpstreamClosedEventHandlerFunc(func(ev *iscp.UpstreamClosedEvent) {
 				r.mu.Lock()
@@ -156,7 +195,14 @@ func (r *runner) open(ctx context.Context, label int, down bool) error {
 			r.mu.Lock()
 			r.resumed = append(r.resumed, label)
 			r.touch()
+			g := r.gateNow()
 			r.mu.Unlock()
+			if g != nil {
+				select {
+				case <-g:
+				case <-time.After(3 * time.Second):
+				}
+			}
 		})),
 		iscp.WithDownstreamClosedEventHandler(iscp.DownstreamClosedEventHandlerFunc(func(ev *iscp.DownstreamClosedEvent) {
 			r.mu.Lock()
@@ -308,7 +354,7 @@ func (r *runner) fault(f faultIn) {
 		r.ev(fmt.Sprintf("EStart %d %s", p.label, kind), fmt.Sprintf("EWake %d", p.label))
 		if !r.waitLog(logStart, kindOfLog(kind), p.label) {
 			cb.Disarm()
-	cb.ConflictResumes(0)
+			cb.ConflictResumes(0)
 			cls := -1
 			select {
 			case cls = <-p.done:
@@ -374,6 +420,7 @@ func (r *runner) fault(f faultIn) {
 		time.Sleep(3 * time.Millisecond)
 	}
 	cb.Disarm()
+	cb.ConflictResumes(0)
 
 	// ---- keep what the broker saw; the schedule is read off it once the streams have been used
 	fr := &faultRec{f: f, log: cb.Log()[logStart:], midcall: -1, inflight: map[int]bool{}, existed: existed}
@@ -598,7 +645,11 @@ func (r *runner) schedule(fr *faultRec, finals map[int]int) []string {
 			resp := fmt.Sprintf("EResumeResp %d RespOk", x.Label)
 			if !resumesLater(x.Label, wi) && lastCut(x.Label) {
 				r.closedBefore[x.Label] = true
-				if g, wasRefused := cb.RefusedOn(x.Label); wasRefused && g == w.gen {
+				if x.Kind == "resumedown" && cb.Conflicted(x.Label) > 0 {
+					// the broker answered RESUME_REQUEST_CONFLICT and the downstream did not retry (finding): NOT excused
+					resp = fmt.Sprintf("EResumeResp %d RespConflict", x.Label)
+					r.downConflict = true
+				} else if g, wasRefused := cb.RefusedOn(x.Label); wasRefused && g == w.gen {
 					resp = fmt.Sprintf("EResumeResp %d RespRefused", x.Label)
 					r.excused[x.Label] = true
 				} else {
@@ -778,13 +829,13 @@ func (r *runner) probeUse(s *strm, resumedBeforeUse bool) int {
 }
 
 type result struct {
-	term     string
-	observed map[string]interface{}
-	direct   string
-	sig      string
-	nt       bool
+	term       string
+	observed   map[string]interface{}
+	direct     string
+	sig        string
+	nt         bool
 	unscripted int
-	noisy    bool // a wire incarnation was established outside every fault window (keepalive false positive under load)
+	noisy      bool // a wire incarnation was established outside every fault window (keepalive false positive under load)
 }
 
 func runCase(c *caseIn) (res result) {
@@ -893,15 +944,30 @@ func runCase(c *caseIn) (res result) {
 		}
 		time.Sleep(20 * time.Millisecond) // the last chunks have reached the stream's loops
 	}
-	for _, f := range c.Faults {
+	r.slowHooks = c.SlowHooks
+	for fi, f := range c.Faults {
 		if res.direct != "" {
 			break
 		}
+		r.mu.Lock()
+		r.curFault = fi
+		r.mu.Unlock()
 		r.fault(f)
+		if c.SlowHooks {
+			// the handlers called during the PREVIOUS fault return now, after this fault's refusal / recovery
+			r.releaseGate(fi - 1)
+			time.Sleep(60 * time.Millisecond)
+		}
 		if r.direct != "" {
 			res.direct = r.direct
 			break
 		}
+	}
+	if c.SlowHooks {
+		for k := range c.Faults {
+			r.releaseGate(k)
+		}
+		time.Sleep(80 * time.Millisecond) // every queued notification is delivered
 	}
 	// use every stream
 	r.mu.Lock()
@@ -1011,6 +1077,9 @@ func runCase(c *caseIn) (res result) {
 	// F9 (missed outage) and F19 (cut resume without closed event) are repaired in /repo: a detached
 	// stream (final code 1) or a silently closed one (3) is a fresh violation, not a known finding
 	_, _ = f9, f19
+	if r.downConflict {
+		sigs = append(sigs, "F46:downstream-resume-conflict-not-retried")
+	}
 	res.sig = strings.Join(sigs, " ")
 	exact := res.direct == ""
 	var excT []string
@@ -1040,7 +1109,7 @@ func runCase(c *caseIn) (res result) {
 var positions = []string{"conflict", "idle", "midopen", "midmeta", "midcall", "outopen", "outmeta", "outcall", "handshake", "resume", "refuse", "dblopen", "dblmeta"}
 
 func genRandom(r *rng.R) *caseIn {
-	c := &caseIn{Ups: r.Intn(3), Downs: r.Intn(3)}
+	c := &caseIn{Ups: r.Intn(3), Downs: r.Intn(3), SlowHooks: r.Chance(1, 5)}
 	if c.Ups+c.Downs > 4 {
 		c.Downs = 4 - c.Ups
 	}
@@ -1147,6 +1216,16 @@ func main() {
 							jobs = append(jobs, job{&caseIn{Ups: sh[0], Downs: sh[1], Faults: []faultIn{g}}, "single-" + pos})
 						}
 					}
+				}
+			}
+		}
+		// slow application hooks: the stream's dispatcher is inside a resumed handler while the next event is queued
+		for _, second := range []string{"refuse", "resume", "idle", "conflict"} {
+			for _, sh := range [][2]int{{1, 0}, {0, 1}, {2, 2}} {
+				for _, slow := range []bool{false, true} {
+					c := &caseIn{Ups: sh[0], Downs: sh[1], SlowHooks: true,
+						Faults: []faultIn{{Pos: "idle", Slow: slow}, {Pos: second, Slow: slow, Refuse: sh[0], Conflicts: 1}}}
+					jobs = append(jobs, job{c, "slow-hooks-" + second})
 				}
 			}
 		}
